@@ -1,5 +1,6 @@
 import SafeNet.Proofs.Parsers
-import SafeNet.Model.Amount
+import SafeNet.Proofs.ParsersExt
+import SafeNet.Proofs.Amount
 /-!
 # C17 — parsers of untrusted text and bytes never crash; formatter output parses back
 
@@ -8,10 +9,29 @@ Models: `SafeNet.Model.Parsers`, instantiated with the guards / slices / integer
 checked-ness flags / constants that `rs2lean` regenerates from the Rust source (`SafeNet.Gen.Parsers`).
 
 Every `no_panic_<routine>` has two parts: (a) the routine's source contains no panic site outside what
-the model interprets (`…Sites = []`: no `unwrap`/`expect`/`panic!`/indexing/non-constant arithmetic),
-(b) the model returns `ok` or `err`, never `panic`, for **all** inputs.  Third-party functions
-(BLS key check, AEAD, UTF-8 validation, multiaddr / serde_json / rmp_serde parsers) are universally
-quantified parameters.
+the model interprets (`…Sites = []`), (b) the model returns `ok` or `err`, never `panic`, for **all** inputs.
+Third-party functions (BLS key check, AEAD, UTF-8 validation, multiaddr / URL / address / serde_json / rmp_serde
+parsers, regex matching, `std::path`'s component parser) are universally quantified parameters.
+
+What (a) means exactly.  `…Sites` is the output of a *syntactic* scan of the one function body (rs2lean,
+`harness/rs2lean/src/parsers.rs`, `Sites`): method calls named `unwrap`/`expect`/`unwrap_err`/`expect_err`/
+`unwrap_unchecked`, `copy_from_slice`/`clone_from_slice`, `split_at(_mut)`/`split_off`, `swap`/`swap_remove`/`remove`/
+`drain`, `rotate_left/right`, `chunks(_exact)`/`windows`/`step_by`, `pow`/`abs`/`div_euclid`/`rem_euclid`/
+`next_power_of_two`, `from_utf8_unchecked`, `borrow_mut`; the macros `panic!`/`unreachable!`/`assert*!`/`debug_assert*!`/
+`todo!`/`unimplemented!`; every index expression `x[..]` (also inside closures); every non-constant `+ - * / % << >>`
+and their assignment forms (whatever the operand types: also `Duration`/`SystemTime`/`Instant` arithmetic).  Macro
+arguments are scanned too: parsed as an expression list where they are one (`format!`-like macros, `eyre!`, `vec![a, b]`),
+otherwise scanned token by token (index groups, listed method names after `.`, binary operators, nested macros) —
+an over-approximation.  A rule that *models* a reported site (a slice whose bounds it emits, a `split_at` the model
+interprets, an arithmetic expression it translates, a `remove` whose receiver it finds declared as a `HashMap`)
+removes exactly that site and says so in the generated file.  NOT seen by the scan, hence trusted: panics inside
+callees (a callee in /repo is covered only if it has its own `…Sites` definition — the ones named in this file; all
+others are third-party or std), panicking methods that are not in the list above (the scan has no types: e.g.
+`Vec::insert`, `String::insert`, `RefCell::borrow`, `Index` impls behind method calls such as `BTreeMap`'s `[]` are
+caught only as index expressions), panics produced by trait impls invoked implicitly (`Display`/`Debug`/`Drop`/`Deref`,
+operator overloading that is not one of the arithmetic operators), integer casts (`as` never panics but truncates),
+and allocation failure / stack overflow.  The differential runs (every routine under `catch_unwind`, with a
+TRACE-level subscriber that formats every log argument) are what covers those.
 -/
 namespace SafeNet.Props.C17
 open SafeNet.Panic SafeNet.Parsers SafeNet.Gen.Parsers SafeNet
@@ -365,9 +385,19 @@ theorem increment_port_option_exact (p : Nat) :
   unfold incrementPort
   by_cases h : p + 1 < 65536 <;> simp [h, hc, checkedAdd, incrementWidth]
 
+/-- `get_start_port_if_applicable`: no panic site, and a total function by construction (a `match` on the optional
+range); the port it returns is the first port of the range given. -/
 theorem no_panic_get_start_port :
-    startPortSites = [] ∧ ∀ r : Option PortRange, ∃ v, startPort r = v :=
-  ⟨by decide, fun r => ⟨_, rfl⟩⟩
+    startPortSites = [] ∧
+    ∀ (r : Option PortRange) (p : Nat), startPort r = some p ↔
+      (r = some (.single p) ∨ ∃ b, r = some (.range p b)) := by
+  refine ⟨by decide, fun r p => ?_⟩
+  cases r with
+  | none => simp [startPort]
+  | some rr =>
+    cases rr with
+    | single q => simp [startPort]
+    | range a b => simp [startPort]
 
 /-! ## bootstrap addresses and cache -/
 
@@ -498,8 +528,11 @@ theorem registry_save_replaces_file :
   have h : registrySaveTruncates = true := by decide
   simp [saveFile, h]
 
-/-- `save(A) ; save(B) ; load` returns B (longer, equal or shorter than A): parsing the formatter's
-output gives the value back also when the file already existed. -/
+/-- `save(A) ; save(B) ; load` on one path, at the level of FILE CONTENT: after the second save the file holds exactly
+B's text (whatever its length relative to A's), so loading parses B's text and nothing else.  The JSON codec itself
+is NOT modelled here — `nodesB`, what parsing B's text gives, is a parameter (serde_json is abstract): that
+`from_json(to_string(B)) = B` is established on the real code by the harness oracle only (op `regsave`: the loaded
+registry re-serialises to the same text), not by this theorem. -/
 theorem registry_save_save_load_roundtrip (lenA lenB nodesB : Nat) (hB : 0 < lenB) :
     saveSaveLoad lenA lenB nodesB = (lenB, .ok nodesB) := by
   have h : registrySaveTruncates = true := by decide
@@ -562,11 +595,11 @@ theorem no_panic_load_private_key (plainExists encExists utf8 : Bool) (content :
       · exact hd content
       · rfl
 
-/-- `load_wallet_from_address`: the only panic site of the source is the `expect` on the EVM network
-taken from the environment (configuration, assumed set); whatever a wallet file holds — garbage, empty,
+/-- `load_wallet_from_address`: no panic site left in the source (the EVM network read from the environment
+and the key read from the file are both mapped to errors); whatever a wallet file holds — garbage, empty,
 non-UTF-8, a key or not — the result is a wallet or an error. -/
 theorem no_panic_load_wallet :
-    walletLoadFromAddressSites = ["expect"] ∧ loadWalletEnvExpected = true ∧ loadWalletKeyChecked = true ∧
+    walletLoadFromAddressSites = [] ∧ loadWalletEnvExpected = false ∧ loadWalletKeyChecked = true ∧
     ∀ (plainExists encExists utf8 : Bool) (content : Bytes) (decrypt : Bytes → Res Unit Bytes)
       (keyOk : Bytes → Option Bytes), (∀ s, (decrypt s).isPanic = false) →
       (loadWallet plainExists encExists content utf8 decrypt keyOk).isPanic = false := by
@@ -601,24 +634,118 @@ theorem load_wallet_rejects_non_keys (plainExists encExists utf8 : Bool) (conten
       exact ⟨key, rfl, hk⟩
     · split at h <;> cases h
 
+/-- `LogFormat::parse_from_str` / `LogOutputDest::parse_from_str`: no panic site; the format parser accepts exactly
+the literals of its `match` (sound and complete), everything else is an error; the destination parser is total
+(a literal, or the text taken as a path). -/
 theorem no_panic_log_parsers :
     logFormatSites = [] ∧ logDestSites = [] ∧
-    ∀ s : Bytes, (∃ n, logFormatParse s = some n ∧ n ∈ logFormatLiterals) ∨ logFormatParse s = none := by
-  refine ⟨by decide, by decide, fun s => ?_⟩
-  unfold logFormatParse
-  cases h : logFormatLiterals.find? fun l => bytesOf l == s with
-  | none => exact Or.inr rfl
-  | some n => exact Or.inl ⟨n, rfl, List.mem_of_find?_eq_some h⟩
+    (∀ (s : Bytes) (n : String), logFormatParse s = some n → n ∈ logFormatLiterals ∧ bytesOf n = s) ∧
+    (∀ s : Bytes, logFormatParse s = none → ∀ l ∈ logFormatLiterals, bytesOf l ≠ s) := by
+  refine ⟨by decide, by decide, fun s n h => ?_, fun s h l hl heq => ?_⟩
+  · unfold logFormatParse at h
+    have := List.find?_some h
+    exact ⟨List.mem_of_find?_eq_some h, by simpa using this⟩
+  · unfold logFormatParse at h
+    rw [List.find?_eq_none] at h
+    exact absurd (by simp [heq]) (h l hl)
 
-/-- `AttoTokens::from_str` (model, round trip and soundness: C16): a value or an error for every
-string, with both overflow-prone steps going through checked arithmetic. -/
+/-! ## token amounts -/
+
+/-- The one unchecked step of `AttoTokens::from_str` — `parsed_remainder * 10.pow(18 - len)` on `ruint` integers,
+whose `*` and `pow` wrap silently — stays in range: it is only reached after `18.checked_sub(len)` succeeded, the
+remainder text is `len` decimal digits, so the product is below `10^18`. -/
+theorem atto_remainder_scale_in_range (fs : List Nat) (pr : Nat) (hd : Amount.isDecimal fs = true)
+    (hp : Amount.uintFromStr (Amount.trimEnd0 fs) = some pr)
+    (hl : ¬ Gen.Amount.powConv < (Amount.trimEnd0 fs).length) :
+    10 ^ (Gen.Amount.powConv - (Amount.trimEnd0 fs).length) < Amount.U256 ∧
+    pr * 10 ^ (Gen.Amount.powConv - (Amount.trimEnd0 fs).length) < 10 ^ 18 := by
+  obtain ⟨ds, hds, rfl⟩ := Amount.isDecimal_exists hd
+  rw [Amount.trimEnd0_toChars] at hp hl ⊢
+  have hdt := hds.trim
+  rw [Amount.uintFromStr_digits _ hdt] at hp
+  rw [Amount.toChars_length] at hl ⊢
+  have hlen : (Dec.trimTrailingZeros ds).length ≤ 18 := by
+    have : Gen.Amount.powConv = 18 := rfl
+    omega
+  have hpr : pr < 10 ^ (Dec.trimTrailingZeros ds).length := by
+    split at hp
+    · cases hp; exact Amount.ofDigits_lt hdt
+    · cases hp
+  have h18 : (10 : Nat) ^ 18 < Amount.U256 := by unfold Amount.U256; simp
+  have hpow : (10 : Nat) ^ (Gen.Amount.powConv - (Dec.trimTrailingZeros ds).length) ≤ 10 ^ 18 :=
+    Nat.pow_le_pow_right (by omega) (by have : Gen.Amount.powConv = 18 := rfl; omega)
+  refine ⟨by omega, ?_⟩
+  have : Gen.Amount.powConv = 18 := rfl
+  rw [this]
+  exact Amount.scaled_lt hpr hlen
+
+theorem attoUnits_ok (units : Nat) : ∃ o, attoUnits units = .ok o := by
+  have hm : Gen.Amount.unitsMulChecked = true := by decide
+  unfold attoUnits
+  rw [if_pos hm]
+  exact ⟨_, rfl⟩
+
+theorem attoScale_ok (pr len : Nat) (h1 : 10 ^ (Gen.Amount.powConv - len) < Amount.U256)
+    (h2 : pr * 10 ^ (Gen.Amount.powConv - len) < 10 ^ 18) : ∃ r, attoScale pr len = .ok r := by
+  have h3 : pr * 10 ^ (Gen.Amount.powConv - len) < 2 ^ 256 := by
+    have : (10 : Nat) ^ 18 < 2 ^ 256 := by simp
+    omega
+  unfold attoScale
+  rw [if_pos h1]
+  unfold umul
+  rw [if_pos h3]
+  exact ⟨_, rfl⟩
+
+theorem attoSum_no_panic (conv rem : Nat) : (attoSum conv rem).isPanic = false := by
+  have ha : Gen.Amount.finalAddChecked = true := by decide
+  unfold attoSum
+  rw [if_pos ha]
+  split <;> rfl
+
+theorem attoRemainder_no_panic (o : Option Nat) (f : Option Bytes) : (attoRemainder (.ok o) f).isPanic = false := by
+  cases o with
+  | none => rfl
+  | some conv =>
+    unfold attoRemainder
+    simp only
+    split
+    · rfl
+    · rename_i hdec
+      split
+      · rfl
+      · cases hp : Amount.uintFromStr (Amount.trimEnd0 (f.getD [])) with
+        | none => rfl
+        | some pr =>
+          simp only
+          split
+          · rfl
+          · rename_i hl
+            have hdec' : Amount.isDecimal (f.getD []) = true := by simpa using hdec
+            obtain ⟨h1, h2⟩ := atto_remainder_scale_in_range (f.getD []) pr hdec' hp hl
+            obtain ⟨r, hr⟩ := attoScale_ok pr _ h1 h2
+            rw [hr]
+            exact attoSum_no_panic conv r
+
+/-- `AttoTokens::from_str`: a value or an error for every string.  The two overflow-prone steps that are checked in
+the source return `ExcessiveValue`; the unchecked `parsed_remainder * 10.pow(..)` (wrapping on `ruint` integers) is
+in range whenever it is reached — `attoFromStr` evaluates it with overflow detection and never reports one. -/
 theorem no_panic_atto_tokens_from_str :
+    attoFromStrSites = [] ∧ attoRemainderScaleGuarded = true ∧
     Gen.Amount.unitsMulChecked = true ∧ Gen.Amount.finalAddChecked = true ∧
-    ∀ s : List Nat, (∃ n, Amount.parse s = .ok n) ∨ (∃ e, Amount.parse s = .error e) := by
-  refine ⟨by decide, by decide, fun s => ?_⟩
-  cases h : Amount.parse s with
-  | error e => exact Or.inr ⟨e, rfl⟩
-  | ok n => exact Or.inl ⟨n, rfl⟩
+    ∀ s : Bytes, (attoFromStr s).isPanic = false := by
+  refine ⟨by decide, by decide, by decide, by decide, fun s => ?_⟩
+  unfold attoFromStr
+  rcases Amount.splitDot s with ⟨u, f⟩
+  simp only
+  split
+  · rfl
+  · cases hu : Amount.uintFromStr u with
+    | none => rfl
+    | some units =>
+      obtain ⟨o, ho⟩ := attoUnits_ok units
+      show (attoRemainder (attoUnits units) f).isPanic = false
+      rw [ho]
+      exact attoRemainder_no_panic o f
 
 /-! ## non-vacuity: the models accept and reject, and the former defects' inputs are errors now -/
 
@@ -645,6 +772,651 @@ example : walletFiles [([110, 111, 116, 101, 115], true), (48 :: 120 :: List.rep
     (48 :: 120 :: List.replicate 40 98, false)] = [1] := by decide
 example : walletSelection [48] [[1]] = .err () := by decide
 example : walletSelection [49] [48 :: 120 :: 97 :: walletExt] = .ok [48, 120, 97] := by decide
+
+/-! ## coverage round 2: program output, environment, config and user-data files, HTTP responses, log files, paths -/
+
+/-- `get_bin_version`: whatever a program prints for `--version` — nothing, blanks only, a `v` as the last
+character, non-UTF-8 — the result is a version token or an error.  The slice `first_line[v_pos + 1..]` starts
+right after an ASCII character found in the line (`versionSliceSkip = 1`). -/
+theorem no_panic_get_bin_version :
+    binVersionSites = [] ∧ versionSliceSkip = 1 ∧ versionFindChar < 128 ∧
+    ∀ (out : Bytes) (utf8 : Bool), (utf8 = true → noContAfterAscii out = true) →
+      (binVersion out utf8).isPanic = false := by
+  refine ⟨by decide, by decide, by decide, fun out utf8 hu => ?_⟩
+  unfold binVersion
+  cases utf8 with
+  | false => rfl
+  | true =>
+    have hn := hu rfl
+    simp only [Bool.not_true, Bool.false_eq_true, ↓reduceIte]
+    cases hl : firstLine out with
+    | none => rfl
+    | some line =>
+      -- the first line is a prefix of the output (possibly minus a final CR): the well-formedness carries over
+      have hline : noContAfterAscii line = true := by
+        unfold firstLine at hl
+        split at hl
+        · cases hl
+        · split at hl
+          · cases hl; exact hn
+          · rename_i i _
+            have htake : ∀ (n : Nat) (s : Bytes), noContAfterAscii s = true → noContAfterAscii (s.take n) = true := by
+              intro n
+              induction n with
+              | zero => intro s _; simp [noContAfterAscii]
+              | succ k ih =>
+                intro s hs
+                match s with
+                | [] => simp [noContAfterAscii]
+                | [a] => simp [noContAfterAscii]
+                | a :: b :: rest =>
+                  have h2 := ih (b :: rest) (noCont_tail hs)
+                  cases k with
+                  | zero => simp [noContAfterAscii]
+                  | succ k' =>
+                    simp only [List.take_succ_cons] at h2 ⊢
+                    simp only [noContAfterAscii, Bool.and_eq_true] at hs ⊢
+                    exact ⟨hs.1, h2⟩
+            have hdl : ∀ (s : Bytes), noContAfterAscii s = true → noContAfterAscii s.dropLast = true := by
+              intro s hs
+              rw [List.dropLast_eq_take]
+              exact htake _ s hs
+            simp only at hl
+            split at hl
+            · rename_i l' hs
+              cases hl
+              unfold stripSuffixByte at hs
+              split at hs
+              · split at hs
+                · cases hs; exact hdl _ (htake i out hn)
+                · cases hs
+              · cases hs
+            · cases hl; exact htake i out hn
+      simp only
+      cases hf : findByte versionFindChar line with
+      | none => simp only; split <;> rfl
+      | some p =>
+        have hs := findByte_spec versionFindChar line p hf
+        have hb := boundary_after_ascii_byte line p versionFindChar hs.2 (by decide) hline
+        have hsl : strSliceFrom line (p + versionSliceSkip) = .ok (line.drop (p + 1)) :=
+          strSliceFrom_ok_of_boundary line (p + 1) (by omega) hb
+        simp only [hsl]
+        split <;> rfl
+
+/-- `parse_environment_variables` (antctl `--env KEY=VALUE`): never panics (the two `parts[i]` accesses come
+after the part-count check), and accepts exactly the texts with a `=`: the key is what precedes the first one. -/
+theorem no_panic_parse_environment_variables :
+    envVarSites = [] ∧ ∀ s : Bytes, (parseEnvVar s).isPanic = false := by
+  refine ⟨by decide, fun s => ?_⟩
+  unfold parseEnvVar
+  simp only [envSplitN, envSplitChar, envPartsReject, envPartIndexes, Cmp.holds, splitN]
+  cases findByte 61 s with
+  | none => rfl
+  | some i => rfl
+
+theorem parse_environment_variables_exact (s : Bytes) :
+    parseEnvVar s = match findByte 61 s with
+      | none => .err ()
+      | some i => .ok (s.take i, s.drop (i + 1)) := by
+  unfold parseEnvVar
+  simp only [envSplitN, envSplitChar, envPartsReject, envPartIndexes, Cmp.holds, splitN]
+  cases findByte 61 s with
+  | none => rfl
+  | some i => rfl
+
+/-- `get_logging_targets` (the text of `ANT_LOG`, and of the node RPC's log-level request): a list of targets
+or an error for every string. -/
+theorem no_panic_get_logging_targets :
+    logTargetsSites = [] ∧ logLevelSites = [] ∧ ∀ s : Bytes, (loggingTargets s).isPanic = false := by
+  refine ⟨by decide, by decide, fun s => ?_⟩
+  have item : ∀ i, (logItem i).isPanic = false := by
+    intro i
+    unfold logItem
+    split
+    · rfl
+    · simp only; split <;> rfl
+  have items : ∀ l, (logItems l).isPanic = false := by
+    intro l
+    induction l with
+    | nil => rfl
+    | cons i rest ih =>
+      have hi := item i
+      simp only [logItems]
+      generalize logItem i = r at hi
+      cases r with
+      | panic p => simp [Res.isPanic] at hi
+      | err e => rfl
+      | ok t =>
+        simp only
+        generalize logItems rest = r2 at ih
+        cases r2 with
+        | panic p => simp [Res.isPanic] at ih
+        | err e => rfl
+        | ok ts => rfl
+  exact items _
+
+/-! ### the launchpad's config file: key bindings and styles -/
+
+theorem extractModifiers_ok : ∀ (fuel : Nat) (s : Bytes) (m : Nat), noContAfterAscii s = true →
+    ∃ r, extractModifiersFuel fuel s m = .ok r
+  | 0, s, m, _ => ⟨_, rfl⟩
+  | fuel + 1, s, m, hn => by
+    simp only [extractModifiersFuel]
+    cases hf : keyModPrefixes.find? (fun p => isPrefix p.1 s) with
+    | none => exact ⟨_, rfl⟩
+    | some e =>
+      obtain ⟨pre, off, bit⟩ := e
+      have hmem := List.mem_of_find?_eq_some hf
+      have hpre : isPrefix pre s = true := by simpa using List.find?_some hf
+      -- the slice offset written in the source is the length of the matched (non-empty, ASCII) literal
+      have hall : ∀ e ∈ keyModPrefixes, e.2.1 = e.1.length ∧ e.1 ≠ [] ∧ ∀ x ∈ e.1, x < 128 := by decide
+      obtain ⟨hoff, hne, hascii⟩ := hall _ hmem
+      simp only at hoff hne hascii
+      have hb := boundary_after_ascii_prefix pre s hne hascii hpre hn
+      have hsl : strSliceFrom s off = .ok (s.drop off) := by
+        rw [hoff]
+        exact strSliceFrom_ok_of_boundary s pre.length (isPrefix_length pre s hpre) hb
+      simp only [hsl]
+      exact extractModifiers_ok fuel (s.drop off) (m ||| bit) (noCont_drop off s hn)
+
+theorem parseKeyCode_no_panic (raw : Bytes) (mods : Nat) : (parseKeyCode raw mods).isPanic = false := by
+  have hg : keyCharUnwrapGuarded = true := by decide
+  unfold parseKeyCode
+  split
+  · rfl
+  · split
+    · simp [hg, Res.isPanic]
+    · rfl
+
+theorem parseKeyEvent_no_panic (raw : Bytes) (hn : noContAfterAscii raw = true) : (parseKeyEvent raw).isPanic = false := by
+  unfold parseKeyEvent extractModifiers
+  obtain ⟨r, hr⟩ := extractModifiers_ok ((raw.map asciiLower).length + 1) (raw.map asciiLower) 0 (noCont_lower raw hn)
+  simp only [hr]
+  exact parseKeyCode_no_panic _ _
+
+theorem parseKeyEvents_no_panic : ∀ (l : List Bytes), (∀ s ∈ l, noContAfterAscii s = true) →
+    (parseKeyEvents l).isPanic = false
+  | [], _ => rfl
+  | s :: rest, h => by
+    have hs := parseKeyEvent_no_panic s (h s (by simp))
+    have ih := parseKeyEvents_no_panic rest (fun x hx => h x (by simp [hx]))
+    simp only [parseKeyEvents]
+    generalize parseKeyEvent s = r at hs
+    cases r with
+    | panic p => simp [Res.isPanic] at hs
+    | err e => rfl
+    | ok k =>
+      simp only
+      generalize parseKeyEvents rest = r2 at ih
+      cases r2 with
+      | panic p => simp [Res.isPanic] at ih
+      | err e => rfl
+      | ok ks => rfl
+
+/-- `parse_key_sequence` (a key-binding string of the launchpad's config file): a list of keys or an error, for
+every well-formed string.  No panic site is left in the four routines: the `[n..]` slices of `extract_modifiers`
+start right after the matched ASCII prefix (offsets = literal lengths), the `unwrap` of the one-character arm is
+guarded.  (`noContAfterAscii` holds of every valid UTF-8 string — the `&str` invariant.) -/
+theorem no_panic_parse_key_sequence :
+    keySequenceSites = [] ∧ keyEventSites = [] ∧ keyModifierSites = [] ∧ keyCodeSites = [] ∧
+    keyCharUnwrapGuarded = true ∧ (∀ e ∈ keyModPrefixes, e.2.1 = e.1.length) ∧
+    ∀ raw : Bytes, noContAfterAscii raw = true → (parseKeySequence raw).isPanic = false := by
+  refine ⟨by decide, by decide, by decide, by decide, by decide, by decide, fun raw hw => ?_⟩
+  unfold parseKeySequence
+  split
+  · rfl
+  · apply parseKeyEvents_no_panic
+    intro seq hseq
+    simp only [List.mem_map] at hseq
+    obtain ⟨piece, hpiece, rfl⟩ := hseq
+    -- the text that is split is a piece of the input, every part is a piece of it, stripping keeps pieces
+    have hraw1 : Sub (if (!containsSub [62, 60] raw) = true then
+        (stripPrefixByte 62 ((stripPrefixByte 60 raw).getD raw)).getD ((stripPrefixByte 60 raw).getD raw) else raw) raw := by
+      split
+      · have h1 : Sub ((stripPrefixByte 60 raw).getD raw) raw := by
+          cases h : stripPrefixByte 60 raw with
+          | none => exact Sub.refl _
+          | some r => exact stripPrefixByte_sub h
+        have h2 : Sub ((stripPrefixByte 62 ((stripPrefixByte 60 raw).getD raw)).getD ((stripPrefixByte 60 raw).getD raw))
+            ((stripPrefixByte 60 raw).getD raw) := by
+          cases h : stripPrefixByte 62 ((stripPrefixByte 60 raw).getD raw) with
+          | none => exact Sub.refl _
+          | some r => exact stripPrefixByte_sub h
+        exact Sub.trans h2 h1
+      · exact Sub.refl _
+    have hp : Sub piece raw := Sub.trans (splitOnSub_sub _ _ piece hpiece) hraw1
+    have : Sub (match stripPrefixByte 60 piece with
+        | some s => s
+        | none => match stripSuffixByte 62 piece with
+          | some s => s
+          | none => piece) piece := by
+      split
+      · rename_i s h; exact stripPrefixByte_sub h
+      · split
+        · rename_i s h; exact stripSuffixByte_sub h
+        · exact Sub.refl _
+    exact noCont_sub (Sub.trans this hp) hw
+
+theorem parseColor_ok (s : Bytes) : ∃ c, parseColor s = .ok c := by
+  have hg : grayAddChecked = true := by decide
+  have hi : rgbIndexChecked = true := by decide
+  have ha : rgbArithChecked = true := by decide
+  have hd : ∀ (t : Bytes) (i : Nat), ∃ d, rgbDigit t i = .ok d := by
+    intro t i
+    unfold rgbDigit
+    split
+    · exact ⟨_, rfl⟩
+    · simp [hi]
+  unfold parseColor
+  simp only
+  split
+  · exact ⟨_, rfl⟩
+  · split
+    · exact ⟨_, rfl⟩
+    · split
+      · first | exact ⟨_, rfl⟩ | (simp only [hg, ↓reduceIte]; exact ⟨_, rfl⟩)
+      · split
+        · obtain ⟨r, hr⟩ := hd (trimEnd (trimStart s)) 3
+          obtain ⟨g, hgr⟩ := hd (trimEnd (trimStart s)) 4
+          obtain ⟨b, hb⟩ := hd (trimEnd (trimStart s)) 5
+          simp only [hr, hgr, hb, rgbIndex, ha, ↓reduceIte]
+          exact ⟨_, rfl⟩
+        · exact ⟨_, rfl⟩
+
+/-- `parse_style` (a style string of the launchpad's config file) returns a style for every string: the split
+position is a byte offset of the line itself (`to_ascii_lowercase` keeps offsets) at an ASCII `o`/`O` or the end,
+`232 + n`, `16 + r*36 + g*6 + b` are checked, the digits of `rgbRGB` are read with `get`. -/
+theorem no_panic_parse_style :
+    parseStyleSites = [] ∧ processColorSites = [] ∧ parseColorSites = [] ∧ stylesDeserializeSites = [] ∧
+    styleFindAsciiLower = true ∧ grayAddChecked = true ∧ rgbIndexChecked = true ∧ rgbArithChecked = true ∧
+    ∀ line : Bytes, (parseStyle line).isPanic = false := by
+  refine ⟨by decide, by decide, by decide, by decide, by decide, by decide, by decide, by decide, fun line => ?_⟩
+  unfold parseStyle
+  have hsplit : ∃ r, strSplitAt line ((findSub sOn (line.map asciiLower)).getD line.length) = .ok r := by
+    cases hf : findSub sOn (line.map asciiLower) with
+    | none => simp [strSplitAt, isBoundary]
+    | some i =>
+      have hs := findSub_spec sOn (line.map asciiLower) i (by decide) hf
+      have hlt : i < line.length := by simpa using hs.1
+      -- the lower-cased line holds `o` at `i`, so the line holds `o` or `O` there: not a continuation byte
+      have hb : isBoundary line i = true := by
+        have h1 : (line.map asciiLower).drop i = (line.drop i).map asciiLower := by simp [List.map_drop]
+        have hp := hs.2
+        rw [h1] at hp
+        have hd : line.drop i = line[i] :: line.drop (i + 1) := (List.drop_eq_getElem_cons hlt)
+        rw [hd] at hp
+        simp only [sOn, List.map_cons, isPrefix, Bool.and_eq_true, beq_iff_eq] at hp
+        have ho : asciiLower line[i] = 111 := hp.1.symm
+        have hlt128 : line[i] < 128 := by
+          have := (asciiLower_lt line[i]).mp (by omega)
+          exact this
+        simp only [isBoundary, List.getElem?_eq_getElem hlt, isCont]
+        have : ¬ (128 ≤ line[i]) := by omega
+        simp [this]
+      simp [strSplitAt, hb, Nat.le_of_lt hlt]
+  obtain ⟨⟨fgs, bgs⟩, hr⟩ := hsplit
+  simp only [hr]
+  obtain ⟨f, hf⟩ := parseColor_ok (processColorString fgs).1
+  obtain ⟨b, hb⟩ := parseColor_ok (processColorString (replaceAll sOn [] bgs)).1
+  simp only [hf, hb]
+  rfl
+
+theorem keyBindingsOf_no_panic : ∀ (l : List Bytes), (∀ k ∈ l, (parseKeySequence k).isPanic = false) →
+    (keyBindingsOf l).isPanic = false
+  | [], _ => rfl
+  | k :: rest, h => by
+    have hc : keyBindingsChecked = true := by decide
+    have hk := h k (by simp)
+    have ih := keyBindingsOf_no_panic rest (fun x hx => h x (by simp [hx]))
+    simp only [keyBindingsOf]
+    generalize parseKeySequence k = r at hk
+    cases r with
+    | panic p => simp [Res.isPanic] at hk
+    | err e => simp [hc, Res.isPanic]
+    | ok v => exact ih
+
+theorem parseStyles_no_panic : ∀ (l : List Bytes), (parseStyles l).isPanic = false
+  | [] => rfl
+  | s :: rest => by
+    have hs := no_panic_parse_style.2.2.2.2.2.2.2.2 s
+    simp only [parseStyles]
+    generalize parseStyle s = r at hs
+    cases r with
+    | panic p => simp [Res.isPanic] at hs
+    | err e => rfl
+    | ok v => exact parseStyles_no_panic rest
+
+/-- `Config::new()` of the launchpad on any config file: a configuration or an error.  An unparsable key string
+is a deserialisation error (`KeyBindings::deserialize` no longer unwraps). -/
+theorem no_panic_launchpad_config :
+    keyBindingsSites = [] ∧ keyBindingsChecked = true ∧ appDataLoadSites = [] ∧
+    ∀ parsed : Option (List Bytes × List Bytes),
+      (∀ ks ss, parsed = some (ks, ss) → ∀ k ∈ ks, noContAfterAscii k = true) →
+      (launchpadConfig parsed).isPanic = false := by
+  refine ⟨by decide, by decide, by decide, fun parsed hw => ?_⟩
+  unfold launchpadConfig
+  cases parsed with
+  | none => rfl
+  | some p =>
+    obtain ⟨ks, ss⟩ := p
+    have hk := keyBindingsOf_no_panic ks (fun k hk => no_panic_parse_key_sequence.2.2.2.2.2.2 k (hw ks ss rfl k hk))
+    simp only
+    generalize keyBindingsOf ks = r at hk
+    cases r with
+    | panic p => simp [Res.isPanic] at hk
+    | err e => rfl
+    | ok v => exact parseStyles_no_panic ss
+
+/-- A config file with a key string that does not parse is rejected, not loaded. -/
+theorem launchpad_config_rejects_unparsable_key (ks ss : List Bytes) (k : Bytes) (hk : k ∈ ks)
+    (hbad : parseKeySequence k = .err ()) (hpre : ∀ k' ∈ ks, (parseKeySequence k').isPanic = false) :
+    (launchpadConfig (some (ks, ss))).isOk = false := by
+  have hc : keyBindingsChecked = true := by decide
+  have key : ∀ l : List Bytes, k ∈ l → (∀ k' ∈ l, (parseKeySequence k').isPanic = false) → keyBindingsOf l = .err () := by
+    intro l
+    induction l with
+    | nil => intro h; simp at h
+    | cons a rest ih =>
+      intro hm hp
+      simp only [keyBindingsOf]
+      have ha := hp a (by simp)
+      cases hr : parseKeySequence a with
+      | panic p => simp [hr, Res.isPanic] at ha
+      | err e => simp [hc]
+      | ok v =>
+        simp only
+        rcases List.mem_cons.mp hm with rfl | hm'
+        · simp [hbad] at hr
+        · exact ih hm' (fun x hx => hp x (by simp [hx]))
+  unfold launchpadConfig
+  simp [key ks hk hpre, Res.isOk]
+
+/-- `AppData::load` (the launchpad's app_data.json): no panic site; a missing file is the default, anything else
+is serde_json's verdict. -/
+theorem no_panic_app_data_load :
+    appDataLoadSites = [] ∧ ∀ e p : Bool, (appDataLoad e p).isPanic = false := by
+  refine ⟨by decide, fun e p => ?_⟩
+  cases e <;> cases p <;> rfl
+
+/-! ### `ANT_PEERS`, network contacts -/
+
+/-- `read_bootstrap_addr_from_env` (the `ANT_PEERS` variable): no panic site; the result is a total function of the
+items' parses, and every address returned was crafted from an item the multiaddr parser accepted (a peer id is
+required). -/
+theorem no_panic_ant_peers :
+    antPeersSites = [] ∧
+    ∀ (items : Option (List (Option (List Proto)))) (tags : List String), tags ∈ antPeers items →
+      ∃ is ps, items = some is ∧ some ps ∈ is ∧ craftTags (some ps) false = some tags := by
+  refine ⟨by decide, fun items tags h => ?_⟩
+  cases items with
+  | none => simp [antPeers] at h
+  | some is =>
+    simp only [antPeers, List.mem_filterMap] at h
+    obtain ⟨p, hp, hc⟩ := h
+    cases p with
+    | none => simp [craftTags] at hc
+    | some ps => exact ⟨is, ps, rfl, hp, hc⟩
+
+theorem countLeastFaulty_no_panic : ∀ (peers : List (List (Nat × Nat))),
+    (∀ p ∈ peers, ∀ a ∈ p, a.1 < 2 ^ counterWidth ∧ a.2 < 2 ^ counterWidth) →
+    (countLeastFaulty peers).isPanic = false
+  | [], _ => rfl
+  | p :: rest, h => by
+    have hp := no_panic_failure_rate.2.2 p (h p (by simp))
+    have ih := countLeastFaulty_no_panic rest (fun q hq => h q (by simp [hq]))
+    simp only [countLeastFaulty]
+    generalize leastFaulty p = r at hp
+    cases r with
+    | panic e => simp [Res.isPanic] at hp
+    | err e => rfl
+    | ok v =>
+      simp only
+      generalize countLeastFaulty rest = r2 at ih
+      cases r2 with
+      | panic e => simp [Res.isPanic] at ih
+      | err e => rfl
+      | ok n => rfl
+
+/-- `ContactsFetcher::try_parse_response` (the body of a network-contacts HTTP response — a cache JSON or one
+multiaddr per line): a list of addresses, never a panic, whatever `u32` counters a JSON body carries. -/
+theorem no_panic_contacts_parse :
+    contactsParseSites = [] ∧
+    ∀ (body : ContactsBody) (ig : Bool),
+      (∀ vm peers, body = .json vm peers → ∀ p ∈ peers, ∀ a ∈ p, a.1 < 2 ^ counterWidth ∧ a.2 < 2 ^ counterWidth) →
+      (contactsParse body ig).isPanic = false := by
+  refine ⟨by decide, fun body ig h => ?_⟩
+  unfold contactsParse
+  cases body with
+  | json vm peers =>
+    simp only
+    split
+    · rfl
+    · exact countLeastFaulty_no_panic peers (h vm peers rfl)
+  | lines ls => rfl
+
+/-! ### the custom EVM network -/
+
+/-- `get_evm_network_from_env` with the three custom-network variables set, and `local_evm_network_from_csv`:
+a malformed URL or address — in a variable or in the CSV file — is an error (both go through `try_new`). -/
+theorem no_panic_evm_network_from_env :
+    evmEnvSites = [] ∧ evmCsvSites = [] ∧ evmTryNewSites = [] ∧ evmEnvChecked = true ∧ evmCsvChecked = true ∧
+    (∀ u t p : Bool, (evmFromEnv u t p).isPanic = false) ∧
+    ∀ (utf8 : Bool) (parts : List (Bool × Bool)), (evmFromCsv utf8 parts).isPanic = false := by
+  have he : evmEnvChecked = true := by decide
+  have hc : evmCsvChecked = true := by decide
+  have key : ∀ u t p : Bool, (customNetwork true u t p).isPanic = false := by
+    intro u t p; cases u <;> cases t <;> cases p <;> rfl
+  refine ⟨by decide, by decide, by decide, he, hc, fun u t p => ?_, fun utf8 parts => ?_⟩
+  · unfold evmFromEnv; rw [he]; exact key u t p
+  · unfold evmFromCsv
+    split
+    · rfl
+    · split
+      · rfl
+      · split
+        · rw [hc]; exact key _ _ _
+        · rfl
+
+/-- The full statement for the `evm-custom` sub-command arguments of antnode / antctl. -/
+def NewCustomNeverPanics : Prop := ∀ u t p : Bool, (evmNewCustom u t p).isPanic = false
+
+/-- It is FALSE of the current code: `Network::new_custom` goes through `CustomNetwork::new`, which `expect`s the
+URL and both addresses (known finding K-u: `antnode … evm-custom --rpc-url x …` panics). -/
+theorem new_custom_panics_on_malformed : ¬ NewCustomNeverPanics := by
+  intro h
+  have := h false true true
+  simp [evmNewCustom, customNetwork, newCustomChecked, Res.isPanic] at this
+
+/-- What does hold: well-formed arguments never panic. -/
+theorem no_panic_new_custom_partial : evmNewCustom true true true = .ok () := by
+  simp [evmNewCustom, customNetwork]
+
+/-! ### nat-detection, the metrics tool -/
+
+theorem no_panic_nat_peer_addr :
+    natPeerSites = [] ∧ ∀ s m : Bool, (natPeerAddr s m).isPanic = false := by
+  refine ⟨by decide, fun s m => ?_⟩
+  cases s <;> cases m <;> rfl
+
+/-- `get_metric_servers` (node log files): a "Metrics server on …" line whose URL does not parse is an error. -/
+theorem no_panic_metric_servers :
+    metricsSites = [] ∧ metricsUrlChecked = true ∧ ∀ ls : List LogLine, (metricServers ls).isPanic = false := by
+  have hc : metricsUrlChecked = true := by decide
+  refine ⟨by decide, hc, fun ls => ?_⟩
+  have key : ∀ (l : List LogLine) (p u : Bool), (metricsScan l p u).isPanic = false := by
+    intro l
+    induction l with
+    | nil => intro p u; rfl
+    | cons x rest ih =>
+      intro p u
+      obtain ⟨n, uo⟩ := x
+      simp only [metricsScan]
+      split
+      · rfl
+      · cases uo with
+        | none => exact ih _ _
+        | some b =>
+          cases b with
+          | false => simp [hc, Res.isPanic]
+          | true => exact ih _ _
+  exact key ls false false
+
+/-! ### ant-cli: register signing key, local user data, wallet export -/
+
+theorem no_panic_register_signing_key :
+    regKeySites = [] ∧ regKeyParseSites = [] ∧
+    ∀ (src : Option Bytes) (utf8 keyOk : Bool), (registerSigningKey src utf8 keyOk).isPanic = false := by
+  refine ⟨by decide, by decide, fun src utf8 keyOk => ?_⟩
+  cases src with
+  | none => rfl
+  | some b => cases utf8 <;> cases keyOk <;> rfl
+
+/-- The local user-data folders of ant-cli (registers, public and private file archives): whatever files a folder
+holds — stray names, non-UTF-8 names, truncated JSON — listing it returns a map or an error. -/
+theorem no_panic_local_user_data :
+    userDataRegistersSites = [] ∧ userDataPublicSites = [] ∧ userDataPrivateSites = [] ∧ userDataPrivateAccessSites = [] ∧
+    (∀ names : List (Bytes × Bool × Bool), (localRegisters names).isPanic = false) ∧
+    (∀ names : List (Bytes × Bool), (localPublicArchives names).isPanic = false) ∧
+    (∀ files : List (Option Bytes), (localPrivateArchives files).isPanic = false) := by
+  refine ⟨by decide, by decide, by decide, by decide, fun names => ?_, fun names => ?_, fun files => ?_⟩
+  · unfold localRegisters
+    have hnone : (names.any fun n => n.2.1 && (regFromHex (fun _ => n.2.2) n.1).isPanic) = false := by
+      rw [List.any_eq_false]
+      intro n _
+      simp [no_panic_register_from_hex.2 (fun _ => n.2.2) n.1]
+    simp only [hnone, Bool.false_eq_true, ↓reduceIte]
+    split <;> rfl
+  · unfold localPublicArchives
+    split <;> rfl
+  · have one : ∀ f, (localPrivateAccess f).isPanic = false := by
+      intro f
+      cases f with
+      | none => rfl
+      | some s => exact no_panic_data_map_from_hex.2.2 s
+    have all : ∀ l, (privateAccessAll l).isPanic = false := by
+      intro l
+      induction l with
+      | nil => rfl
+      | cons f rest ih =>
+        have hf := one f
+        simp only [privateAccessAll]
+        generalize localPrivateAccess f = r at hf
+        cases r with
+        | panic p => simp [Res.isPanic] at hf
+        | err e => rfl
+        | ok a =>
+          simp only
+          generalize privateAccessAll rest = r2 at ih
+          cases r2 with
+          | panic p => simp [Res.isPanic] at ih
+          | err e => rfl
+          | ok as => rfl
+    unfold localPrivateArchives
+    have h := all files
+    generalize privateAccessAll files = r at h
+    cases r with
+    | panic p => simp [Res.isPanic] at h
+    | err e => rfl
+    | ok as => rfl
+
+/-- `wallet export`: a wallet file that does not hold a private key is reported as an error. -/
+theorem no_panic_wallet_export :
+    walletExportSites = [] ∧ walletExportKeyChecked = true ∧
+    ∀ (plainExists encExists utf8 : Bool) (content : Bytes) (decrypt : Bytes → Res Unit Bytes) (keyOk : Bytes → Bool),
+      (∀ s, (decrypt s).isPanic = false) →
+      (walletExport plainExists encExists content utf8 decrypt keyOk).isPanic = false := by
+  have hk : walletExportKeyChecked = true := by decide
+  refine ⟨by decide, hk, fun plainExists encExists utf8 content decrypt keyOk hd => ?_⟩
+  have h := no_panic_load_private_key plainExists encExists utf8 content decrypt hd
+  unfold walletExport
+  generalize loadPrivateKey plainExists encExists content utf8 decrypt = r at h
+  cases r with
+  | panic p => simp [Res.isPanic] at h
+  | err e => rfl
+  | ok key =>
+    simp only
+    split
+    · rfl
+    · simp [hk, Res.isPanic]
+
+/-! ### autonomi: relative path of an uploaded file -/
+
+theorem stripPrefixComps_append : ∀ (a b : List Comp), stripPrefixComps a (a ++ b) = some b
+  | [], b => by simp [stripPrefixComps]
+  | x :: xs, b => by simp [stripPrefixComps, stripPrefixComps_append xs b]
+
+theorem stripPrefixComps_dropLast (d rest : List Comp) : stripPrefixComps d.dropLast (d ++ rest) = some (d.drop (d.length - 1) ++ rest) := by
+  have h : d ++ rest = d.dropLast ++ (d.drop (d.length - 1) ++ rest) := by
+    rw [← List.append_assoc]
+    congr 1
+    rw [List.dropLast_eq_take]
+    exact (List.take_append_drop _ _).symm
+  rw [h]
+  exact stripPrefixComps_append _ _
+
+/-- `get_relative_file_path_from_abs_file_and_folder_path`: for a file found by walking the folder the user named
+(so the file's components start with the folder's) — including the folders `.`, `..`, `/`, `x/..` — the result is a
+path, never a panic; it ends with the file's components below the folder.  The `expect` left in the source is the one
+on `strip_prefix`, discharged by that precondition. -/
+theorem no_panic_relative_file_path :
+    relPathSites = ["expect"] ∧ relPathFileNameChecked = true ∧
+    ∀ (folder rest : List Comp) (isFile : Bool),
+      (relativeFilePath (folder ++ rest) folder isFile).isPanic = false ∧
+      (isFile = false → ∃ pre, relativeFilePath (folder ++ rest) folder isFile = .ok (pre ++ rest)) := by
+  have hc : relPathFileNameChecked = true := by decide
+  refine ⟨by decide, hc, fun folder rest isFile => ?_⟩
+  unfold relativeFilePath
+  simp only [hc, Bool.not_true, Bool.false_and, Bool.false_eq_true, ↓reduceIte]
+  cases isFile with
+  | true =>
+    refine ⟨?_, fun h => by cases h⟩
+    simp only [↓reduceIte]
+    split <;> rfl
+  | false =>
+    simp only [Bool.false_eq_true, ↓reduceIte]
+    have hstrip : ∃ pre, stripPrefixComps ((pathParent folder).getD []) (folder ++ rest) = some (pre ++ rest) := by
+      unfold pathParent
+      split
+      · exact ⟨folder, by simp [stripPrefixComps]⟩
+      · exact ⟨folder, by simp [stripPrefixComps]⟩
+      · exact ⟨_, by simpa [List.append_assoc] using stripPrefixComps_dropLast folder rest⟩
+    obtain ⟨pre, hp⟩ := hstrip
+    simp only [hp]
+    exact ⟨rfl, fun _ => ⟨pre, rfl⟩⟩
+
+/-! ### MessagePack decoders of user data -/
+
+/-- `UserData` / `PublicArchive` / `PrivateArchive::from_bytes` (vault and archive content fetched from the
+network) and `NodeEvent::from_bytes`: nothing but the `rmp_serde` call, whose error is returned. -/
+theorem no_panic_msgpack_decoders :
+    userDataFromBytesSites = [] ∧ publicArchiveFromBytesSites = [] ∧ privateArchiveFromBytesSites = [] ∧
+    nodeEventFromBytesSites = [] ∧ ∀ d : Bool, (mpDecode d).isPanic = false := by
+  refine ⟨by decide, by decide, by decide, by decide, fun d => ?_⟩
+  cases d <;> rfl
+
+/-! ### non-vacuity for the round-2 models; the former defects' inputs are values or errors now -/
+
+example : binVersion [97, 110, 116, 110, 111, 100, 101, 32, 118, 48, 46, 49, 46, 50, 10] true = .ok [48, 46, 49, 46, 50] := by decide
+example : binVersion [118] true = .err () := by decide
+example : binVersion [] true = .err () := by decide
+example : parseEnvVar [97, 61, 98, 61, 99] = .ok ([97], [98, 61, 99]) := by decide
+example : parseEnvVar [97] = .err () := by decide
+example : (loggingTargets [97, 108, 108, 44, 120, 61, 73, 78, 70, 79]).isOk = true := by decide
+example : loggingTargets [120, 61, 111, 102, 102] = .err () := by decide
+example : parseKeySequence [60, 67, 116, 114, 108, 45, 99, 62] = .ok [("c99", 2)] := by decide
+example : parseKeySequence [60, 113, 113, 62] = .err () := by decide
+example : parseStyle [103, 114, 97, 121, 50, 52] = .ok (none, none, 0) := by decide
+example : parseStyle [114, 103, 98] = .ok (some 16, none, 0) := by decide
+example : parseStyle [114, 103, 98, 55, 48, 48] = .ok (none, none, 0) := by decide
+example : parseStyle [114, 103, 98, 49, 50, 51] = .ok (some 67, none, 0) := by decide
+example : parseStyle [114, 101, 100, 32, 111, 110, 32, 98, 108, 117, 101] = .ok (some 1, some 4, 0) := by decide
+example : launchpadConfig (some ([[60, 113, 113, 62]], [])) = .err () := by decide
+example : evmFromEnv false true true = .err () := by decide
+example : evmFromCsv true [(false, false), (false, false), (false, false), (false, false)] = .err () := by decide
+example : metricServers [(false, some false)] = .err () := by decide
+example : metricServers [(true, none), (false, some true)] = .ok 1 := by decide
+example : relativeFilePath [.cur, .normal [97]] [.cur] false = .ok [.cur, .normal [97]] := by decide
+example : relativeFilePath [.root, .normal [97], .normal [98]] [.root, .normal [97]] false = .ok [.normal [97], .normal [98]] := by decide
 
 end SafeNet.Props.C17
 
@@ -688,3 +1460,25 @@ end SafeNet.Props.C17
 #print axioms SafeNet.Props.C17.no_panic_log_parsers
 #print axioms SafeNet.Props.C17.registry_save_replaces_file
 #print axioms SafeNet.Props.C17.registry_save_save_load_roundtrip
+#print axioms SafeNet.Props.C17.no_panic_get_bin_version
+#print axioms SafeNet.Props.C17.no_panic_parse_environment_variables
+#print axioms SafeNet.Props.C17.parse_environment_variables_exact
+#print axioms SafeNet.Props.C17.no_panic_get_logging_targets
+#print axioms SafeNet.Props.C17.no_panic_parse_key_sequence
+#print axioms SafeNet.Props.C17.no_panic_parse_style
+#print axioms SafeNet.Props.C17.no_panic_launchpad_config
+#print axioms SafeNet.Props.C17.launchpad_config_rejects_unparsable_key
+#print axioms SafeNet.Props.C17.no_panic_app_data_load
+#print axioms SafeNet.Props.C17.no_panic_ant_peers
+#print axioms SafeNet.Props.C17.no_panic_contacts_parse
+#print axioms SafeNet.Props.C17.no_panic_evm_network_from_env
+#print axioms SafeNet.Props.C17.new_custom_panics_on_malformed
+#print axioms SafeNet.Props.C17.no_panic_new_custom_partial
+#print axioms SafeNet.Props.C17.no_panic_nat_peer_addr
+#print axioms SafeNet.Props.C17.no_panic_metric_servers
+#print axioms SafeNet.Props.C17.no_panic_register_signing_key
+#print axioms SafeNet.Props.C17.no_panic_local_user_data
+#print axioms SafeNet.Props.C17.no_panic_wallet_export
+#print axioms SafeNet.Props.C17.no_panic_relative_file_path
+#print axioms SafeNet.Props.C17.no_panic_msgpack_decoders
+#print axioms SafeNet.Props.C17.atto_remainder_scale_in_range
